@@ -380,8 +380,34 @@ int main(int argc, char** argv)
     outbuf.rng = seed * 3 + 1;
     errbuf.rng = seed * 5 + 2;
     std::cout.flush();
-    auto* old_out = std::cout.rdbuf(&outbuf);
-    auto* old_err = std::cerr.rdbuf(&errbuf);
+    // every second run the sinks have ALREADY BEEN USED when the capture buffers are installed: a few records
+    // go to an earlier pair of buffers first (the output is whatever buffer the stream has when a record is logged)
+    racy_buf warm_out(1 << 16), warm_err(1 << 16);
+    bool warmed = seed % 2 == 0;
+    std::size_t warm_bytes = 0;
+    auto* old_out = std::cout.rdbuf();
+    auto* old_err = std::cerr.rdbuf();
+    if (warmed)
+    {
+        std::cout.rdbuf(&warm_out);
+        std::cerr.rdbuf(&warm_err);
+        for (int k = 0; k < 3; ++k)
+        {
+            L1::info() << "warm-up " << k;
+            L2::warn() << "warm-up " << k;
+            L3::info() << "warm-up " << k;
+            L4::warn() << "warm-up " << k;
+        }
+        std::cout.flush();
+        std::cerr.flush();
+        warm_out.final_drain();
+        warm_err.final_drain();
+        warm_bytes = warm_out.cursor + warm_err.cursor;
+        if (warm_out.cursor == 0 || warm_err.cursor == 0)
+            std::printf("V warm-up-records-did-not-reach-the-installed-buffer cout=%zu cerr=%zu\n", warm_out.cursor, warm_err.cursor);
+    }
+    std::cout.rdbuf(&outbuf);
+    std::cerr.rdbuf(&errbuf);
     auto* old_tie = std::cerr.tie();
     if (topo == 3)
     {
@@ -479,6 +505,15 @@ int main(int argc, char** argv)
     std::cerr.rdbuf(old_err);
     std::cerr.tie(old_tie);
 
+    if (warmed)
+    {
+        warm_out.final_drain();
+        warm_err.final_drain();
+        if (warm_out.cursor + warm_err.cursor != warm_bytes)
+            violations.push_back("record-written-to-a-replaced-stream-buffer (" +
+                                 std::to_string(warm_out.cursor + warm_err.cursor - warm_bytes) +
+                                 " bytes went to the buffer the stream had before the capture buffer was installed)");
+    }
     std::string order_out, order_err;
     long sw_out = 0, sw_err = 0;
     bool uses_out = topo != 4, uses_err = topo >= 3;
@@ -505,11 +540,12 @@ int main(int argc, char** argv)
     for (auto& v : violations)
         std::printf("V %s\n", v.c_str());
     std::printf("RESULT topology=%d threads=%u records=%ld entries=%ld contended=%ld overlaps=%ld switches=%ld "
-                "order_hash=%016llx syncs=%ld rounds=%ld\n",
+                "order_hash=%016llx syncs=%ld rounds=%ld warmed=%d\n",
                 topo, threads, static_cast<long>(order_out.size() + order_err.size()),
                 outbuf.entries.load() + errbuf.entries.load(), outbuf.contended.load() + errbuf.contended.load(),
                 outbuf.overlaps.load() + errbuf.overlaps.load(), sw_out + sw_err,
-                static_cast<unsigned long long>(h), outbuf.syncs.load() + errbuf.syncs.load(), rounds_checked.load());
+                static_cast<unsigned long long>(h), outbuf.syncs.load() + errbuf.syncs.load(), rounds_checked.load(),
+                warmed ? 1 : 0);
     std::string head = (order_out.empty() ? order_err : order_out).substr(0, 60);
     std::printf("ORDER %s\n", head.c_str());
     return violations.empty() ? 0 : 1;
